@@ -21,6 +21,7 @@ struct TaskLog {
   std::vector<uint64_t> obs;
   std::vector<int> status;
   std::vector<uint8_t> fired;  // which attached fault kinds fired in the operation
+  std::vector<uint64_t> steps; // allocation / scalar / callback points the operation went through
   std::vector<Violation> viol;
   Counters cnt;
   std::array<bool, NSLOTS> failed_target{};
@@ -259,6 +260,7 @@ void run_op(WorldRun &wr, int task, Pool &pool, const Op &op, uint32_t idx, Task
     sim::take_tag_violations(d0, u0);
   }
   exec_op(c);
+  const uint64_t step_sig = hmix(hmix(sim::g_cur->alloc_idx, sim::g_cur->scalar_idx), sim::g_cur->cb_idx);
   log.cnt.ops[op.kind]++;
   log.cnt.ops_status[c.out.status]++;
   log.cnt.faults_fired[F_ALLOC] += sim::g_cur->fired_alloc;
@@ -313,6 +315,7 @@ void run_op(WorldRun &wr, int task, Pool &pool, const Op &op, uint32_t idx, Task
   log.status.push_back(c.out.status);
   log.fired.push_back((uint8_t)((sim::g_cur->fired_alloc ? 1 : 0) | (sim::g_cur->fired_scalar ? 2 : 0) |
                                 (sim::g_cur->fired_cb ? 4 : 0)));
+  log.steps.push_back(step_sig);
 #ifdef SIM_EXACT
   retire_oversized(pool, log.pins);
 #endif
@@ -462,6 +465,7 @@ struct CanonShared {
   uint64_t obs[8][kMaxOpsShared];
   int32_t status[8][kMaxOpsShared];
   uint8_t fired[8][kMaxOpsShared];
+  uint64_t steps[8][kMaxOpsShared];
   Counters cnt;
   uint64_t probes[256];
   uint32_t viol_len;
@@ -533,6 +537,7 @@ bool run_world_in_child(const Plan &plan, const sim::SchedConfig &cfg, WorldResu
         shm->obs[t][i] = l.obs[i];
         shm->status[t][i] = l.status[i];
         shm->fired[t][i] = l.fired[i];
+        shm->steps[t][i] = l.steps[i];
       }
       add_counters(c, l.cnt);
       for (const auto &v : l.viol) va.push(violation_to_json(v));
@@ -564,6 +569,7 @@ bool run_world_in_child(const Plan &plan, const sim::SchedConfig &cfg, WorldResu
       l.obs.push_back(shm->obs[t][i]);
       l.status.push_back(shm->status[t][i]);
       l.fired.push_back(shm->fired[t][i]);
+      l.steps.push_back(shm->steps[t][i]);
     }
   }
   res.setup_log.cnt = shm->cnt;
@@ -660,6 +666,26 @@ RunResult run_plan(const Plan &plan, const RunOptions &opt, Counters &cnt) {
           break;
         }
     }
+  // ... and "the k-th allocation of this call" names the same allocation under
+  // both schedules only if the call does the same work under both. With shared,
+  // lazily built state (correctly synchronised or not) the amount of work a call
+  // does depends on what other tasks did before; a fault index then lands on a
+  // different allocation (one the library absorbs under one schedule, one it
+  // has to propagate under the other). So in a run in which any attached fault
+  // fired, oracle (b) is evaluated only if every operation went through the
+  // same number of allocation, scalar and callback points under both
+  // schedules. Fault-free runs are always judged.
+  if (have_canon && !fault_divergent) {
+    bool any_fired = false, steps_differ = false;
+    for (int t = 0; t < n; t++) {
+      const TaskLog &a = canon.logs[t], &b = ex.logs[t];
+      for (uint8_t f : a.fired) any_fired |= f != 0;
+      for (uint8_t f : b.fired) any_fired |= f != 0;
+      size_t m = std::min(a.steps.size(), b.steps.size());
+      for (size_t i = 0; i < m; i++) steps_differ |= a.steps[i] != b.steps[i];
+    }
+    if (any_fired && steps_differ) fault_divergent = true;
+  }
   if (fault_divergent) local.runs_fault_divergent++;
   if (have_canon && rr.viol.empty() && !ex.stats.deadlock && !canon.stats.deadlock && !static_fault && !fault_divergent) {
     for (int t = 0; t < n; t++) {
